@@ -584,7 +584,14 @@ func (r *requestSender) Send(writer io.Writer) error {
 		hdr := *frm.Header
 		hdr.StreamId = r.stream
 		verifAt("requestsender.stream.set", r.conn, &hdr, r.stream)
-		return r.conn.getCodec().EncodeFrame(&frame.Frame{Header: &hdr, Body: frm.Body}, writer)
+		// The body is encoded first and its actual length is used for the header. `EncodeFrame()` computes the length
+		// up front and counts a tracing ID (16 bytes), which only responses have, for requests with the tracing flag.
+		codec := r.conn.getCodec()
+		raw, err := codec.ConvertToRawFrame(&frame.Frame{Header: &hdr, Body: frm.Body})
+		if err != nil {
+			return err
+		}
+		return codec.EncodeRawFrame(raw, writer)
 	case *frame.RawFrame:
 		hdr := *frm.Header
 		hdr.StreamId = r.stream
